@@ -257,7 +257,8 @@ def run_entries(acc, block, nblocks, cfg):
             o = call(lambda: fcall(getattr(qargs["self"], name), qargs) if kind == "method" else fcall(f_np, qargs))
             if o[0] == "exc" and {an: snap(q) for an, q in qargs.items()} != snap0:
                 acc.violation(["input-integrity", name, "input-modified-by-a-refused-operation", "offset-unit"], {"function": name, "kind": kind, "entry": ei}, "inputs bit-identical", "changed")
-            if not (o[0] == "exc" and o[1] == "OffsetUnitCalculusError"):
+            refused = o[0] == "exc" and (o[1] == "OffsetUnitCalculusError" or (o[1] == "DimensionalityError" and args[first][0] in ("D", "A")))  # a slot that wants a pure number refuses a temperature as a dimension error
+            if not refused:
                 acc.violation(["errors", name, "offset-unit-in-a-multiplicative-operation-not-refused", ""], {"function": name, "kind": kind, "entry": ei}, "OffsetUnitCalculusError", repr(o)[:200])
             acc.outcome("error-clause")
         # any entry, first argument in an offset unit: accepted or refused, but a refusal must not have touched the data
